@@ -97,7 +97,7 @@ struct Outcome {           // what one execution of a scenario looked like from 
     size_t failures; Str firstFailure; Str allText; bool bodyCompleted; size_t callsMade; size_t crashes /* times the framework's crash method was asked for (crashOnFailure) */;
     Outcome() : failures(0), bodyCompleted(false), callsMade(0), crashes(0) {}
 };
-struct CallPlan { int fn; int obj; Vec<int> vals; Str dev; int task; bool extra; int scope; bool shortForm; int xget; };   // xget: 0, or one more read of the returned value through getter number xget, whatever the stored type
+struct CallPlan { int fn; int obj; Vec<int> vals; Str dev; int task; bool extra; int scope; bool shortForm; int xget; bool midRoot; };   // xget: 0, or one more read of the returned value through getter number xget, whatever the stored type
 struct ExpPlan { int fn; int count; int flags; int obj; Vec<int> vals; int ret; int scope; };      // flags: 1 ignoreOtherParameters, 2 named scope, 4 short form (last parameter not specified, and not passed by its calls)
 struct Scenario { bool strict, ignoreOther, useScope, preFail; bool nestedCmp /* comparators make a mock call of their own */; bool crashOn /* crashOnFailure switched on: the crash method (a counter here) must be asked for by the same failures through both interfaces */; bool otherVal /* also read a value through the other mock support (known finding C19-support-level-value-of-other-scope) */; int rounds; int type2 /* fn6's object parameter uses a second custom type: same equality function, other to-string */, tol /* 0 none, else index into tolPool for fn3's double parameter */; Vec<ExpPlan> exps; Vec<CallPlan> calls; Vec<Op> data; };
 
@@ -210,6 +210,7 @@ struct CppFront : public Front {
         MockActualCall& x = m(sc, c.scope).actualCall(F.name);
         (void)((sc.useScope || c.scope) ? mock() : mock("scope1")).hasReturnValue(); (void)m(sc, c.scope);      // the other mock support is looked at while this call is still being made, then the call goes on
         if (c.obj && c.dev != "noobject") x.onObject(objectPtr(c.dev == "object" ? otherObject(c.obj) : c.obj));
+        if (c.midRoot && sc.ignoreOther && (sc.useScope || c.scope)) mock().actualCall("not_expected_fn");      // e.g. an argument expression that itself calls a mocked function of the root mock
         for (int k = 0; k < F.np; k++) {
             if (c.dev == sfmt("omit:%d", k)) continue;
             if (c.shortForm && F.np >= 1 && k == F.np - 1) continue;
@@ -596,7 +597,7 @@ struct Engine : public vf::Engine {
             int nTasks = strict ? 1 : (int)w.range(1, 4);
             Vec<Op> calls;
             for (size_t k = 0; k < G.ops.size(); k++) if (G.ops[k].kind == M_EXPECT) for (int n = 0; n < (int)G.ops[k].b; n++) {
-                Op c; c.kind = M_CALL; c.a = G.ops[k].a; c.d = G.ops[k].d; c.s = G.ops[k].s; c.phase = (int)w.below((uint64_t)nTasks); c.b = ((G.ops[k].c & 2) ? 1 : 0) | ((G.ops[k].c & 4) ? 2 : 0);
+                Op c; c.kind = M_CALL; c.a = G.ops[k].a; c.d = G.ops[k].d; c.s = G.ops[k].s; c.phase = (int)w.below((uint64_t)nTasks); c.b = ((G.ops[k].c & 2) ? 1 : 0) | ((G.ops[k].c & 4) ? 2 : 0); if (!cfront && ignoreOther && w.chance(1, 3)) c.b |= 4;      // 4: while this call (if it is made on the named scope) is still collecting its parameters, the root mock gets a call of its own (one it ignores)
                 if (cfront && w.chance(1, 6)) c.c = w.range(1, 24);
                 if (G.ops[k].c & 1) { Vec<int> v = parseIdx(c.s); if (!v.empty()) v.back() = (int)w.below(7); c.s = joinIdx(v); }   // the ignored parameter may carry anything
                 calls.push_back(c);
@@ -642,7 +643,7 @@ struct Engine : public vf::Engine {
             const Op& o = G.ops[i];
             if (o.kind == M_EXPECT) { ExpPlan e; e.fn = (int)(o.a % N_FN); e.count = (int)o.b; e.flags = (int)o.c; e.obj = (int)o.d; e.vals = parseIdx(o.s); e.vals.resize((size_t)FNS[e.fn].np, 0); e.ret = atoi(o.s2.c_str()); e.scope = (e.flags & 2) ? 1 : 0; sc.exps.push_back(e); }
             else if (o.kind == M_CALL) {
-                CallPlan c; c.fn = (int)(o.a % N_FN); c.obj = (int)o.d; c.vals = parseIdx(o.s); c.vals.resize((size_t)FNS[c.fn].np, 0); c.dev = o.s2; c.task = o.phase; c.extra = o.s2 == "extra"; c.scope = (o.b & 1) ? 1 : 0; c.shortForm = (o.b & 2) != 0; c.xget = (int)o.c;
+                CallPlan c; c.fn = (int)(o.a % N_FN); c.obj = (int)o.d; c.vals = parseIdx(o.s); c.vals.resize((size_t)FNS[c.fn].np, 0); c.dev = o.s2; c.task = o.phase; c.extra = o.s2 == "extra"; c.scope = (o.b & 1) ? 1 : 0; c.shortForm = (o.b & 2) != 0; c.midRoot = (o.b & 4) != 0; c.xget = (int)o.c;
                 if (c.dev == "drop") continue;
                 sc.calls.push_back(c);
                 if (c.dev == "dup") { CallPlan c2 = c; c2.task = (c.task + 1) % 4; sc.calls.push_back(c2); }
